@@ -45,6 +45,10 @@ class App(Session):
         self.uses.append(database)
         await super().use(database)
 
+    async def schema(self):
+        # a catalog per tenant: what one connection can list is its own user's
+        return {"tenant_%s" % self.username: {"t_%s" % self.username: {"a": "INT"}}}
+
     async def query(self, expression, sql, attrs):
         m = re.search(r"base = (\d+) AND n = (\d+) AND boom = (\d+) AND src = (\d+) AND fail = (\d+)", sql)
         if m:
@@ -74,6 +78,10 @@ class App(Session):
             ev = self.gates.setdefault(int(m.group(1)), asyncio.Event())
             await ev.wait()
             return [(int(m.group(1)), self.database, self.variables.get("sql_mode"))], ["k", "db", "mode"]
+        m = re.search(r"AS 'U([0-9A-F]{4})'", sql)
+        if m:
+            # the column is named by the statement itself, so its definition packet depends on this connection's results set
+            return [(1,)], [chr(int(m.group(1), 16))]
         return [(1, self.database)], ["a", "db"]
 
 
@@ -172,8 +180,17 @@ def gen_program(rng, cid):
             prog.append(("set", b"\x03" + sql.encode(), ml, sql))
         if rng.random() < 0.15:
             prog.append(("query", b"\x03SELECT '\xc3\xa9'", None, None))
-        else:
-            pass
+        if rng.random() < 0.3:
+            # the catalog is the application's answer for THIS connection's user (absolute oracle, see below)
+            prog.append(rng.choice([("dbs", b"\x03SHOW DATABASES", None, None), ("tables", b"\x03SELECT table_name FROM information_schema.tables WHERE table_schema <> 'information_schema'", None, None)]))
+        if rng.random() < 0.3:
+            # this connection's own results character set, then a column whose NAME (declared by the application as the text
+            # U+00E9) has a byte above 0x7F: the definition the client gets is encoded for THIS connection -- an oracle that
+            # needs no second run, so state surviving in the process between runs cannot hide behind the solo comparison
+            cs = rng.choice(["latin1", "cp850", "utf8mb4", "latin1", "utf8mb4"])
+            prog.append(("set", ("SET character_set_results = '%s'" % cs).encode().join([b"\x03", b""]),
+                         "var set V|S|character_set_results|s%s" % cs.encode().hex(), "SET character_set_results = '%s'" % cs))
+            prog.append(("colname", b"\x03SELECT a AS 'U00E9' FROM named", None, cs))
         if rng.random() < 0.25:
             # text protocol over a row source that suspends between rows: the response is half written (buffered) while
             # other connections run
@@ -201,7 +218,7 @@ def split_responses(raw):
     return out
 
 
-LOGIN_CHARSETS = [(255, "utf8mb4"), (8, "latin1"), (51, "cp1251"), (9, "latin2")]
+LOGIN_CHARSETS = [(255, "utf8mb4"), (8, "latin1"), (255, "utf8mb4"), (51, "cp1251")]      # two connections share a client set
 
 
 def login_charset(user):
@@ -335,7 +352,7 @@ async def case(chk, rng, idx):
     users = ["user%d" % i for i in range(K)]
     outs, oks, uses = await run_interleaved(chk, random.Random(seed_inter), progs, capslist, users)
     desc = dict(case=idx, seed=chk.seed, K=K, schedule_seed=seed_inter,
-                programs=[[(s[0], s[3] if s[0] in ("set", "get", "initdb", "slow") else (s[2] or "")) for s in p] for p in progs])
+                programs=[[(s[0], s[3] if s[0] in ("set", "get", "initdb", "slow", "colname") else (s[2] or "")) for s in p] for p in progs])
     chk.count("K=%d" % K)
     if not all(oks.values()):
         chk.fail("a connection's handshake failed while others were in progress", desc, oks)
@@ -379,6 +396,30 @@ async def case(chk, rng, idx):
                     chk.fail("a command got no response", dict(desc, connection=i, step=kind), None)
                     break
             chk.count("step:" + kind)
+            if kind in ("dbs", "tables"):
+                try:
+                    rs = decode_resultset([p for _, p in resp or []], capslist[i])
+                    names = sorted(decode_text_row(r, len(rs["cols"]))[0].decode() for r in rs["rows"])
+                except (Bad, IndexError, struct.error, KeyError, AttributeError) as e:
+                    names = "undecodable:%r" % (e,)
+                # of the names only applications declare (tenant_* databases, t_user* tables), exactly this user's
+                want_names = ["tenant_user%d" % i] if kind == "dbs" else ["t_user%d" % i]
+                if isinstance(names, list):
+                    names = [n for n in names if n.startswith("tenant_" if kind == "dbs" else "t_user")]
+                if names != want_names:
+                    chk.fail("a connection's catalog lists something other than its own application's schema",
+                             dict(desc, connection=i, statement="SHOW DATABASES" if kind == "dbs" else "SELECT table_name FROM information_schema.tables ..."),
+                             dict(got=names, want=want_names))
+            if kind == "colname":
+                try:
+                    name = decode_resultset([p for _, p in resp or []], capslist[i])["cols"][0]["name"]
+                except (Bad, IndexError, struct.error, KeyError) as e:
+                    name = "undecodable:%r" % (e,)
+                want_name = "\u00e9".encode({"latin1": "latin-1", "cp850": "cp850", "utf8mb4": "utf-8"}[step[3]])
+                if name != want_name:
+                    chk.fail("a column name was not encoded in the connection's own character_set_results",
+                             dict(desc, connection=i, statement="SET character_set_results = '%s'; SELECT a AS <U+00E9> FROM named" % step[3]),
+                             dict(got=name.hex() if isinstance(name, bytes) else name, want=want_name.hex()))
             if step[2] is None:
                 continue
             try:
